@@ -70,6 +70,20 @@ struct Obj
     g.translate(o, Cell<T>::to(e));
     return vh::Ev("translate").vec("d", d).i("empty", e).vec("win", window()).vec("off", offset()).done();
   }
+  // translate relying on the default argument: entering cells read a default-constructed cell
+  std::string translateDefault(const std::vector<int> & d)
+  {
+    CO o; for (size_t a = 0; a < DIM; ++a) {o[a] = d[a];}
+    g.translate(o);
+    return vh::Ev("translate").vec("d", d).i("empty", Cell<T>::from(T())).vec("win", window()).vec("off", offset()).done();
+  }
+  // "back towards the origin": the offset argument is an expression of the grid's own reported offset, not evaluated by the caller
+  std::string translateBack(int e)
+  {
+    std::vector<int> d; for (size_t a = 0; a < DIM; ++a) {d.push_back(-(int)g.getIndexOffsetAlongAxes()[a]);}
+    g.translate(-g.getIndexOffsetAlongAxes().template cast<int>(), Cell<T>::to(e));
+    return vh::Ev("translate").vec("d", d).i("empty", e).vec("win", window()).vec("off", offset()).done();
+  }
   std::string write(const std::vector<int> & i, int v)
   {
     cell(mk(i)) = Cell<T>::to(v);
@@ -180,7 +194,9 @@ static void randomExecT(vh::Rng & r, int maxn, int maxlen, vh::Out & out, bool v
         if (style == 3 && r.coin()) {x = 0;}
         d.push_back(x);
       }
-      out.puts(o.translate(d, (int)r.range(-3, 3) * 1000 - 7));
+      const int way = (int)r.range(0, 7);
+      if (way == 0) {out.puts(o.translateDefault(d));} else if (way == 1) {out.puts(o.translateBack((int)r.range(-3, 3) * 1000 - 7));}
+      else {out.puts(o.translate(d, (int)r.range(-3, 3) * 1000 - 7));}
     } else if (what < 9) {
       std::vector<int> i;
       for (size_t a = 0; a < DIM; ++a) {i.push_back((int)r.range(0, n[a] - 1));}
